@@ -89,3 +89,18 @@ CHECKS["C07"] = {
          "what": "two POST requests through one pool: 11 x 11 bodies x 4 outcomes of the first; parameters seen for the second equal its own content"},
     ],
 }
+
+
+import probes
+
+CHECKS["C01"] = {
+    "prepare": probes.prepare,
+    "assumptions": ["two hand-built probe schemas stand for 'all schemas'; the reference executor (probes/ref) is the oracle",
+                    "scheduler: run-to-block, lowest task id first (schedule independence is C06)"],
+    "harnesses": [
+        {"probe": "core", "harness": "Harness_C01_exec", "setup": "Setup_C01_exec", "reach": ["c01.compared"], "workers": 10,
+         "configs_quick": ["single", "follow"], "configs_thorough": ["single", "follow", "funcsyn", "wl1", "wl2", "omitptr", "follow_wl2"],
+         "quick": {"params": {"budget": 1}, "sample_models": 40, "sample_every": 9}, "thorough": {"params": {"budget": 2}, "sample_models": 200, "sample_every": 23},
+         "what": "generated executor (api.Generate at check time) vs reference on 8 operation families with symbolic @skip/@include variables and resolver/directive outcomes {value,null,error} within a deviation budget"},
+    ],
+}
